@@ -33,7 +33,7 @@ PROPS = {
     'C13': dict(streams=['C13'], sweeps=[], rule='parse request, or rendering of a negative / non-4-digit year', nontrivial=lambda l: l.startswith('parse') or ' -' in l),
     'C14': dict(streams=['C14'], sweeps=[], rule='negative, boundary or out-of-range timestamp, or system time with sub-second part', nontrivial=lambda l: ' -' in l or 'system' in l or _limits(l)),
     'C15': dict(streams=['C15'], sweeps=[], rule='negative day number, or a refused / case-changed name or number', nontrivial=lambda l: ' -' in l or 'from' in l),
-    'C16': dict(streams=['C16'], sweeps=['chrono', 'time'], rule='history through chrono (h) or time (m) in a non-Gregorian calendar or near a foreign range end', nontrivial=lambda l: _window(l) or ' J ' in l or _limits(l)),
+    'C16': dict(streams=['C16'], extra_cases=['foreign_enums'], sweeps=['chrono', 'time'], rule='history through chrono (h) or time (m) in a non-Gregorian calendar or near a foreign range end', nontrivial=lambda l: _window(l) or ' J ' in l or _limits(l)),
     'C17': dict(streams=['C17'], sweeps=[], rule='interleaving mixing front and back', nontrivial=lambda l: ('f' in l.split(' ')[-1] and 'b' in l.split(' ')[-1])),
     'C18': dict(streams=[], cli=True, sweeps=[], rule='argv with options interleaved with arguments, or a negative year', nontrivial=None),
     'C19': dict(streams=[], cli=True, sweeps=[], rule='argv that is rejected, contains a digit cluster or non-UTF-8 bytes, or mixes -h/-V/-c with other tokens', nontrivial=None),
@@ -48,3 +48,20 @@ TRUSTED_BASE = [
     'OCaml driver and Rust harness (argument decoding, canonical printing, generators) — trusted for the correspondence only',
     'hand models (coq/Hand/*.v) are tied to the code by differential correspondence only; std/foreign behaviour they transcribe is listed at the top of each model file',
 ]
+
+# failure kinds of the brute-force oracle sweep (harness/src/oracle.rs) that bear on each property
+ORACLE_KINDS = {
+    'C01': ['at_jdn', 'at_ymd_wrong', 'at_ymd_err', 'at_ordinal_date_wrong', 'at_ordinal_date_err', 'label_not_monotone'],
+    'C02': ['at_jdn', 'at_ymd', 'at_ordinal_date', 'year_kind', 'year_length'],
+    'C03': ['at_jdn_label', 'at_jdn_panic', 'style', 'last_julian_date', 'first_gregorian_date'],
+    'C04': ['at_jdn_ordinal', 'at_jdn_day_ordinal', 'at_jdn_panic', 'year_length'],
+    'C05': ['_panic'],
+    'C06': ['succ', 'pred', 'at_ymd_wrong', 'at_ordinal_date_wrong', 'last_julian_date', 'first_gregorian_date'],
+    'C07': ['at_ymd', 'at_ordinal_date'],
+    'C08': ['year_kind', 'year_length', 'month_sum'],
+    'C09': ['month_shape', 'shape_', 'nth_day', 'days_panic'],
+    'C10': ['succ', 'pred'],
+    'C11': ['label_not_monotone', 'at_jdn_ordinal'],
+    'C12': ['reforming_panic'],
+}
+ORACLE_SWEEPS = ['oracle 1830692 3200000 1', 'oracle 1830692 2147439588 20011', 'oracle 19500000 19700000 7', 'oracle 2147000000 2147439588 97', 'oracle_proleptic']
